@@ -366,7 +366,7 @@ pub fn run(ctx: &mut Ctx) {
     ctx.report.note("exhaustive_subspaces", J::Arr(vec![J::from(format!("{} special values ^ arity 0..=3 through every Truth/Budget constructor and accessor", n))]));
     // sampled arities 4..=5 (surplus items) and random tuples
     let mut rng = ctx.rng(0xC13);
-    let m = ctx.share(400_000, 20_000_000);
+    let m = ctx.share(3_000_000, 60_000_000);
     for i in 0..m {
         if ctx.out_of_time() {
             ctx.report.inconclusive.push(format!("random tuple workload cut at {} of {}", i, m));
@@ -403,7 +403,7 @@ pub fn run(ctx: &mut Ctx) {
         }
     }
     // evidence-number API: specials + random bit patterns
-    let k = ctx.share(1_500_000, 150_000_000);
+    let k = ctx.share(12_000_000, 400_000_000);
     let mut nums: Vec<f64> = sv.clone();
     for x in [<f64 as EvidentNumber>::zero(), <f64 as EvidentNumber>::one()] {
         nums.push(x);
